@@ -1173,6 +1173,16 @@ func concCmd(args []string) error {
 			hang = true
 		}
 	}
+	if !hang && (len(want) == 0 || want["keyscan"]) && !skip["keys"] {
+		st, err := runKeyscan(seed, tier, outdir)
+		if err != nil {
+			return err
+		}
+		fmt.Fprintf(sf, "PHASE keyscan %s\n", st)
+		if st != "OK" {
+			hang = true
+		}
+	}
 	if hang {
 		os.Exit(4)
 	}
